@@ -24,9 +24,12 @@
   * `subtypes_of` / `all_subtypes_of` of an UNDEFINED symbol that is mentioned in `is` lists are not empty
     (the index is keyed by the mentioned symbol): the subtype side is stated with `RawEdge`, and with `Edge` for
     defined symbols;
-  * `reflect` only looks for conjuncts among the tags that HAVE A DEF and carry a Marker: `Seed`.  For a
-    normalised namespace (every part of a conjunct def is itself a def) this is the statement's "every conjunct
-    whose parts are all marker tags of the record" (`reflect_spec_normalised`).
+  * `reflect` takes as parts of a conjunct EVERY Marker-valued tag of the record, whether or not the tag has a def
+    of its own (since the repair of `Namespace::reflect`; before, `{ahu, rooftop}` with defs `ahu`, `ahu-rooftop`
+    and no def `rooftop` was not reflected as `ahu-rooftop`): `Seed` is the statement's sentence word for word,
+    `reflect_spec` / `isA_spec` have no hypothesis on the conjunct's parts.  What the sentence means for
+    degenerate conjunct names (empty parts `a-`, `-b`, `a--b`; repeated parts `a-a`; parts that are tags but not
+    Markers; "one-part conjuncts") is stated and proved below (`conjunct_has_two_parts` ...).
   `Acyclic` (a topological numbering) survives only to state that the cyclic examples below ARE cyclic.
 -/
 import Hs.Lemmas.NsSpec
@@ -134,48 +137,114 @@ theorem fitsRow_spec (fuel : Nat) (ns : Ns) (a : Name) (bs r : List Name)
     (h : fitsRow fuel ns a bs = .ok r) (b : Name) :
     b ∈ r ↔ (b ∈ bs ∧ fits fuel ns a b = .ok true) := mem_fitsRow fuel ns a bs r h b
 
-/-- reflect = the seeds (defs of the record's tags; conjunct defs all of whose parts are defined Marker tags
-of the record) and all their supertypes -/
+/-- The statement's sentence, spelled out: `t` is a def, and it is the name of a tag of the record or a conjunct
+name all of whose dash-separated parts are Marker-valued tags of the record. -/
+theorem seed_def (g : Defs) (r : Rec) (t : Name) :
+    Seed g r t ↔ (defined g t = true ∧
+      ((∃ v, (t, v) ∈ r) ∨ (isConjunct t = true ∧ ∀ p ∈ splitDash t, (p, true) ∈ r))) := Iff.rfl
+
+/-- "Reflecting a record yields the defs of its tags, of every conjunct whose parts are all marker tags of the
+record, and all their supertypes" - both directions, for every defs grid and every record, no condition on the
+parts of the conjunct having defs: `d` is reflected IFF it is, or is a transitive supertype of, the def `t` of a
+tag of the record or a conjunct def `t` all of whose dash-separated parts are Marker-valued tags of the record. -/
 theorem reflect_spec (rows : List Row) (fuel : Nat) (hf : fuelFor (make rows).defs ≤ fuel) (r : Rec) :
     ∃ res, reflect fuel (make rows) r = .ok res ∧
-      ∀ x, x ∈ res ↔ ∃ t, Seed (make rows).defs r t ∧ ReflTransGen (Edge (make rows).defs) t x :=
+      ∀ d, d ∈ res ↔ ∃ t, (defined (make rows).defs t = true ∧
+          ((∃ v, (t, v) ∈ r) ∨ (isConjunct t = true ∧ ∀ p ∈ splitDash t, (p, true) ∈ r))) ∧
+        ReflTransGen (Edge (make rows).defs) t d :=
   Ns.reflect_spec rows fuel hf r
 
-/-- every part of a conjunct def is itself a def (Haystack normalisation) -/
-def ConjunctPartsDefined (g : Defs) : Prop :=
-  ∀ c, defined g c = true → isConjunct c = true → ∀ p ∈ splitDash c, defined g p = true
-
-/-- the statement's wording of the seeds -/
-def SeedN (g : Defs) (r : Rec) (t : Name) : Prop :=
-  defined g t = true ∧ ((∃ m, (t, m) ∈ r) ∨ (isConjunct t = true ∧ ∀ p ∈ splitDash t, (p, true) ∈ r))
-
-theorem seed_iff_seedN (g : Defs) (hn : ConjunctPartsDefined g) (r : Rec) (t : Name) :
-    Seed g r t ↔ SeedN g r t := by
-  unfold Seed SeedN
-  constructor
-  · rintro (⟨h1, h2⟩ | ⟨h1, h2, h3⟩)
-    · exact ⟨h1, Or.inl h2⟩
-    · exact ⟨h1, Or.inr ⟨h2, fun p hp => (h3 p hp).2⟩⟩
-  · rintro ⟨h1, h2 | ⟨h2, h3⟩⟩
-    · exact Or.inl ⟨h1, h2⟩
-    · exact Or.inr ⟨h1, h2, fun p hp => ⟨hn t h1 h2 p hp, h3 p hp⟩⟩
-
-theorem reflect_spec_normalised (rows : List Row) (hn : ConjunctPartsDefined (make rows).defs) (fuel : Nat)
-    (hf : fuelFor (make rows).defs ≤ fuel) (r : Rec) :
-    ∃ res, reflect fuel (make rows) r = .ok res ∧
-      ∀ x, x ∈ res ↔ ∃ t, SeedN (make rows).defs r t ∧ ReflTransGen (Edge (make rows).defs) t x := by
-  obtain ⟨res, h1, h2⟩ := Ns.reflect_spec rows fuel hf r
-  refine ⟨res, h1, fun x => ?_⟩
-  rw [h2 x]
-  constructor
-  · rintro ⟨t, ht, h⟩; exact ⟨t, (seed_iff_seedN _ hn r t).1 ht, h⟩
-  · rintro ⟨t, ht, h⟩; exact ⟨t, (seed_iff_seedN _ hn r t).2 ht, h⟩
-
-/-- the filter term `^base` matches a record exactly when one of its seeds fits `base` -/
+/-- "'^symbol' in a filter matches exactly the records having a tag or conjunct that fits the symbol": the term
+`^base` is true on `r` IFF `base` is a def and is, or is a transitive supertype of, the def `t` of a tag of the
+record or a conjunct def `t` all of whose dash-separated parts are Marker-valued tags of the record. -/
 theorem isA_spec (rows : List Row) (fuel : Nat) (hf : fuelFor (make rows).defs ≤ fuel) (r : Rec) (base : Name) :
     ∃ v, reflFits fuel (make rows) r base = .ok v ∧
-      (v = true ↔ ∃ t, Seed (make rows).defs r t ∧ defined (make rows).defs base = true ∧
-        ReflTransGen (Edge (make rows).defs) t base) := reflFits_spec rows fuel hf r base
+      (v = true ↔ ∃ t, (defined (make rows).defs t = true ∧
+          ((∃ v, (t, v) ∈ r) ∨ (isConjunct t = true ∧ ∀ p ∈ splitDash t, (p, true) ∈ r))) ∧
+        defined (make rows).defs base = true ∧ ReflTransGen (Edge (make rows).defs) t base) :=
+  reflFits_spec rows fuel hf r base
+
+/-! ### what the sentence means for degenerate conjunct names
+
+`compute_conjuncts_keys` splits every def name that contains `-` on `-` (`splitDash`), files the remaining parts
+under the first part; `find_conjuncts` looks every marker up as a first part, wants all remaining parts among the
+markers and fetches the def under the re-joined name.  `reflect_spec` covers every name; the corollaries say what
+it amounts to. -/
+
+/-- There is no one-part conjunct: a name that contains `-` has at least two parts ... -/
+theorem conjunct_has_two_parts (c : Name) (h : isConjunct c = true) : 2 ≤ (splitDash c).length :=
+  two_le_length_splitDash c h
+
+/-- ... and a name without `-` is its own only part (it is never filed in `conjuncts_keys`). -/
+theorem nonconjunct_is_one_part (c : Name) (h : isConjunct c = false) : splitDash c = [c] :=
+  splitDash_of_not_conjunct c h
+
+/-- the number of parts is the number of dashes + 1: `a-` and `-b` have two parts, `a--b` three, `-` two -/
+theorem parts_count (c : Name) : (splitDash c).length = c.count '-' + 1 := length_splitDash c
+
+/-- the parts are dash-free and re-join to the name: `get_by_name(join)` asks for the very def that was split -/
+theorem parts_rejoin (c : Name) : joinDash (splitDash c) = c ∧ ∀ p ∈ splitDash c, ¬ '-' ∈ p :=
+  ⟨joinDash_splitDash c, fun p hp => not_dash_mem_splitDash c p hp⟩
+
+/-- Hence the words "conjunct def" can be dropped from the sentence: for a name without `-` "all parts are marker
+tags" says that the name itself is a (Marker) tag, which the first clause covers. -/
+theorem seed_iff_without_isConjunct (g : Defs) (r : Rec) (t : Name) :
+    Seed g r t ↔ (defined g t = true ∧ ((∃ v, (t, v) ∈ r) ∨ ∀ p ∈ splitDash t, (p, true) ∈ r)) := by
+  unfold Seed
+  constructor
+  · rintro ⟨h1, h2 | ⟨_, h3⟩⟩
+    · exact ⟨h1, Or.inl h2⟩
+    · exact ⟨h1, Or.inr h3⟩
+  · rintro ⟨h1, h2 | h3⟩
+    · exact ⟨h1, Or.inl h2⟩
+    · cases hc : isConjunct t with
+      | true => exact ⟨h1, Or.inr ⟨rfl, h3⟩⟩
+      | false =>
+        have := h3 t (by rw [splitDash_of_not_conjunct t hc]; exact List.mem_singleton.2 rfl)
+        exact ⟨h1, Or.inl ⟨true, this⟩⟩
+
+/-- Empty parts (`a-`, `-b`, `a--b`, `-`): the empty part has to be a Marker-valued tag like any other - the
+record needs a tag whose name is the empty string.  No record with proper (non-empty) tag names reflects such a
+conjunct, unless it carries the conjunct's name as a tag. -/
+theorem conjunct_with_empty_part (g : Defs) (r : Rec) (c : Name) (he : [] ∈ splitDash c)
+    (hnoempty : ∀ v, (([] : Name), v) ∉ r) (hnotag : ∀ v, (c, v) ∉ r) : ¬ Seed g r c := by
+  rintro ⟨_, ⟨v, hv⟩ | ⟨_, h⟩⟩
+  · exact hnotag v hv
+  · exact hnoempty true (h [] he)
+
+theorem rec_value_unique {r : Rec} (hk : (r.map Prod.fst).Nodup) {p : Name} {a b : Bool}
+    (ha : (p, a) ∈ r) (hb : (p, b) ∈ r) : a = b := by
+  induction r with
+  | nil => cases ha
+  | cons kv r ih =>
+    simp only [List.map_cons, List.nodup_cons, List.mem_map, not_exists, not_and] at hk
+    rcases List.mem_cons.1 ha with e1 | ha' <;> rcases List.mem_cons.1 hb with e2 | hb'
+    · rw [← e2] at e1; exact (Prod.mk.inj e1).2
+    · exact absurd rfl (by rw [← e1] at hk; exact hk.1 (p, b) hb')
+    · exact absurd rfl (by rw [← e2] at hk; exact hk.1 (p, a) ha')
+    · exact ih hk.2 ha' hb'
+
+/-- A part that is a tag of the record but NOT Marker-valued does not count (the tags of a record are distinct):
+the conjunct is not reflected, unless the record carries the conjunct's name as a tag. -/
+theorem conjunct_with_nonmarker_part (g : Defs) (r : Rec) (c p : Name) (hk : (r.map Prod.fst).Nodup)
+    (hp : p ∈ splitDash c) (hv : (p, false) ∈ r) (hnotag : ∀ v, (c, v) ∉ r) : ¬ Seed g r c := by
+  rintro ⟨_, ⟨v, hv'⟩ | ⟨_, h⟩⟩
+  · exact hnotag v hv'
+  · have := rec_value_unique hk (h p hp) hv
+    cases this
+
+/-- A part that is missing from the record: the conjunct is not reflected (unless its name is a tag). -/
+theorem conjunct_with_missing_part (g : Defs) (r : Rec) (c p : Name) (hp : p ∈ splitDash c)
+    (hmiss : ∀ v, (p, v) ∉ r) (hnotag : ∀ v, (c, v) ∉ r) : ¬ Seed g r c := by
+  rintro ⟨_, ⟨v, hv'⟩ | ⟨_, h⟩⟩
+  · exact hnotag v hv'
+  · exact hmiss true (h p hp)
+
+/-- Repeated parts (`a-a`, `a-b-a`): only the SET of parts matters - a conjunct def is a seed as soon as every
+member of the set of its parts is a Marker tag. -/
+theorem conjunct_parts_as_set (g : Defs) (r : Rec) (c : Name) (hd : defined g c = true) (hc : isConjunct c = true)
+    (parts : List Name) (hsame : ∀ p, p ∈ splitDash c ↔ p ∈ parts) (hall : ∀ p ∈ parts, (p, true) ∈ r) :
+    Seed g r c := ⟨hd, Or.inr ⟨hc, fun p hp => hall p ((hsame p).1 hp)⟩⟩
 
 /-- `choices_for`: the direct subtypes of a def that lists the Symbol `choice` in `is` -/
 theorem choices_spec (rows : List Row) (s x : Name) :
@@ -187,7 +256,8 @@ theorem choices_spec (rows : List Row) (s x : Name) :
 theorem conjuncts_spec (ns : Ns) (s x : Name) :
     x ∈ conjunctsDefs ns s ↔ (x ∈ splitDash s ∧ defined ns.defs x = true) := mem_conjunctsDefs ns s x
 
-/-- The property at full strength: every defs grid, cyclic included. -/
+/-- The property at full strength: every defs grid, cyclic included; every record; conjuncts with parts that have
+no def, empty parts or repeated parts included. -/
 def C13_full : Prop :=
   ∀ rows : List Row, ∀ fuel, fuelFor (make rows).defs ≤ fuel →
     (∀ s b, b ∈ supertypesOf (make rows).defs s ↔ Edge (make rows).defs s b) ∧
@@ -202,10 +272,13 @@ def C13_full : Prop :=
         (v = true ↔ (defined (make rows).defs a = true ∧ defined (make rows).defs b = true ∧
           ReflTransGen (Edge (make rows).defs) a b))) ∧
     (∀ r, ∃ res, reflect fuel (make rows) r = .ok res ∧
-        ∀ x, x ∈ res ↔ ∃ t, Seed (make rows).defs r t ∧ ReflTransGen (Edge (make rows).defs) t x) ∧
+        ∀ d, d ∈ res ↔ ∃ t, (defined (make rows).defs t = true ∧
+            ((∃ v, (t, v) ∈ r) ∨ (isConjunct t = true ∧ ∀ p ∈ splitDash t, (p, true) ∈ r))) ∧
+          ReflTransGen (Edge (make rows).defs) t d) ∧
     (∀ r base, ∃ v, reflFits fuel (make rows) r base = .ok v ∧
-        (v = true ↔ ∃ t, Seed (make rows).defs r t ∧ defined (make rows).defs base = true ∧
-          ReflTransGen (Edge (make rows).defs) t base))
+        (v = true ↔ ∃ t, (defined (make rows).defs t = true ∧
+            ((∃ v, (t, v) ∈ r) ∨ (isConjunct t = true ∧ ∀ p ∈ splitDash t, (p, true) ∈ r))) ∧
+          defined (make rows).defs base = true ∧ ReflTransGen (Edge (make rows).defs) t base))
 
 theorem C13_holds : C13_full := fun rows fuel hf =>
   ⟨fun s b => supertypes_spec rows s b, fun s x => subtypes_spec rows s x,
@@ -263,17 +336,77 @@ example : reflect (fuelFor (make exRows).defs) (make exRows) [(['a'], true), (['
     = .ok [['a'], ['m'], ['b'], ['a', '-', 'b'], ['d']] := by decide +kernel
 example : reflFits (fuelFor (make exRows).defs) (make exRows) [(['a'], true), (['b'], false)] ['d']
     = .ok false := by decide +kernel
-example : ConjunctPartsDefined (make exRows).defs := by
-  intro c hc hconj p hp
-  obtain ⟨d, hd⟩ := defined_iff.1 hc
-  obtain ⟨hmem, rfl⟩ := get_some hd
-  rw [exDefs] at hmem
-  simp only [List.mem_cons, List.not_mem_nil, or_false] at hmem
-  rcases hmem with rfl | rfl | rfl | rfl | rfl <;> first | (exact absurd hconj (by decide)) | skip
-  have : splitDash ['a', '-', 'b'] = [['a'], ['b']] := by decide
-  rw [this] at hp
-  simp only [List.mem_cons, List.not_mem_nil, or_false] at hp
-  rcases hp with rfl | rfl <;> decide
+/-! Non-vacuity (1b): the repaired defect.  Defs `marker`, `ahu is [marker]`, `ahu-rooftop is [ahu]` - there is NO
+def `rooftop`.  The record `{ahu, rooftop}` (both Markers) reflects `ahu-rooftop` and matches `^ahu-rooftop`
+(before the repair: `[ahu, marker]` and no match); without `rooftop`, or with `rooftop` present but not a Marker,
+it does not.  `rooftop-ahu` has the undefined part FIRST (the key of `conjuncts_keys`), `u-v` has no defined part
+at all. -/
+def nAhu : Name := ['a', 'h', 'u']
+def nRooftop : Name := ['r', 'o', 'o', 'f', 't', 'o', 'p']
+def nMarker : Name := ['m', 'a', 'r', 'k', 'e', 'r']
+def nAhuRooftop : Name := ['a', 'h', 'u', '-', 'r', 'o', 'o', 'f', 't', 'o', 'p']
+def nRooftopAhu : Name := ['r', 'o', 'o', 'f', 't', 'o', 'p', '-', 'a', 'h', 'u']
+
+def ahuRows : List Row :=
+  [ { name := some nMarker, isRaw := [] },
+    { name := some nAhu, isRaw := [some nMarker] },
+    { name := some nAhuRooftop, isRaw := [some nAhu] },
+    { name := some nRooftopAhu, isRaw := [some nMarker] },
+    { name := some ['u', '-', 'v'], isRaw := [some nMarker] } ]
+
+example : defined (make ahuRows).defs nRooftop = false := by decide +kernel
+example : splitDash nAhuRooftop = [nAhu, nRooftop] := by decide +kernel
+theorem ahu_rooftop_reflected :
+    reflect (fuelFor (make ahuRows).defs) (make ahuRows) [(nAhu, true), (nRooftop, true)]
+      = .ok [nAhu, nMarker, nAhuRooftop, nRooftopAhu] ∧
+    reflFits (fuelFor (make ahuRows).defs) (make ahuRows) [(nAhu, true), (nRooftop, true)] nAhuRooftop
+      = .ok true := by decide +kernel
+-- the hypotheses of the statement's conjunct clause hold for it: `reflect_spec` is not vacuous on this record
+example : Seed (make ahuRows).defs [(nAhu, true), (nRooftop, true)] nAhuRooftop :=
+  ⟨by decide +kernel, Or.inr ⟨by decide +kernel, by decide +kernel⟩⟩
+-- a part is missing / is a tag but not a Marker / only the undefined part is there
+example : reflect (fuelFor (make ahuRows).defs) (make ahuRows) [(nAhu, true)] = .ok [nAhu, nMarker] ∧
+    reflect (fuelFor (make ahuRows).defs) (make ahuRows) [(nAhu, true), (nRooftop, false)] = .ok [nAhu, nMarker] ∧
+    reflect (fuelFor (make ahuRows).defs) (make ahuRows) [(nRooftop, true)] = .ok [] ∧
+    reflFits (fuelFor (make ahuRows).defs) (make ahuRows) [(nAhu, true), (nRooftop, false)] nAhuRooftop
+      = .ok false := by decide +kernel
+-- the defined part need not be a Marker to be reflected itself, but it must be one to count as a part
+example : reflect (fuelFor (make ahuRows).defs) (make ahuRows) [(nAhu, false), (nRooftop, true)]
+    = .ok [nAhu, nMarker] := by decide +kernel
+-- no part has a def: the record reflects nothing but the conjunct and its supertypes
+example : reflect (fuelFor (make ahuRows).defs) (make ahuRows) [(['u'], true), (['v'], true)]
+    = .ok [['u', '-', 'v'], nMarker] := by decide +kernel
+
+/-! Non-vacuity (1c): degenerate conjunct names.  Defs `a`, `a-` (parts `a`, ``), `-b` (parts ``, `b`), `a--b`
+(parts `a`, ``, `b`), `-` (parts ``, ``), `a-a` (parts `a`, `a`), `a-b-a`. -/
+def degRows : List Row :=
+  [ { name := some ['a'], isRaw := [] },
+    { name := some ['a', '-'], isRaw := [] },
+    { name := some ['-', 'b'], isRaw := [] },
+    { name := some ['a', '-', '-', 'b'], isRaw := [] },
+    { name := some ['-'], isRaw := [] },
+    { name := some ['a', '-', 'a'], isRaw := [] },
+    { name := some ['a', '-', 'b', '-', 'a'], isRaw := [] } ]
+
+example : splitDash ['a', '-'] = [['a'], []] ∧ splitDash ['-', 'b'] = [[], ['b']] ∧
+    splitDash ['a', '-', '-', 'b'] = [['a'], [], ['b']] ∧ splitDash ['-'] = [[], []] ∧
+    splitDash ['a', '-', 'a'] = [['a'], ['a']] ∧ splitDash [] = [[]] := by decide
+-- repeated parts: the one Marker tag `a` is enough for `a-a`; `a-b-a` also wants `b`
+example : reflect (fuelFor (make degRows).defs) (make degRows) [(['a'], true)]
+    = .ok [['a'], ['a', '-', 'a']] := by decide +kernel
+example : reflect (fuelFor (make degRows).defs) (make degRows) [(['a'], true), (['b'], true)]
+    = .ok [['a'], ['a', '-', 'a'], ['a', '-', 'b', '-', 'a']] := by decide +kernel
+-- empty parts: not reflected for records with proper tag names, reflected once the empty name is a Marker tag
+example : reflect (fuelFor (make degRows).defs) (make degRows) [([], true)]
+    = .ok [['-']] := by decide +kernel
+example : reflect (fuelFor (make degRows).defs) (make degRows) [([], true), (['a'], true), (['b'], true)]
+    = .ok [['a'], ['-', 'b'], ['-'], ['a', '-'], ['a', '-', '-', 'b'], ['a', '-', 'a'], ['a', '-', 'b', '-', 'a']] := by
+  decide +kernel
+example : reflect (fuelFor (make degRows).defs) (make degRows) [([], false), (['a'], true), (['b'], true)]
+    = .ok [['a'], ['a', '-', 'a'], ['a', '-', 'b', '-', 'a']] := by decide +kernel
+-- a record that carries the conjunct's NAME as a tag reflects it by the first clause, whatever its parts
+example : reflect (fuelFor (make degRows).defs) (make degRows) [(['a', '-', '-', 'b'], false)]
+    = .ok [['a', '-', '-', 'b']] := by decide +kernel
 
 /-! Non-vacuity (2): the 2-cycle of the repaired defect, `aa is [bb]`, `bb is [aa]`.  It admits no topological
 numbering, the traversals end within `fuelFor = 3` iterations and return the closure; each def is its own
